@@ -770,7 +770,12 @@ def _c10_one(ctx: Any, case: Dict[str, Any], name: str) -> None:
         window_args = (["-f", from_s] if from_s else []) + (["-t", to_s] if to_s else [])
         base = ws.run(case["country"], case["args"])
         to_only = ws.run(case["country"], case["args"] + (["-t", to_s] if to_s else []))
-        filtered = ws.run(case["country"], case["args"] + window_args)
+        warmup = None
+        if case.get("warm") and to_s and from_s:
+            # the filtered run is the second one in its interpreter: the first processed the same files with another window
+            warmup = [list(case["args"]) + ["-t", to_s, "-o", ws.new_out(), ws.ini, ws.ods]]
+            ctx.count("cli_filtered_runs_made_second_in_one_interpreter")
+        filtered = ws.run(case["country"], case["args"] + window_args, warmup=warmup)
         ctx.count("executions", 3)
         ctx.count("cli_runs", 3)
         if base.exit != 0 or to_only.exit != 0:
@@ -898,7 +903,7 @@ def c10(ctx: Any, total: int) -> None:
                 window[1] = None
             args = []
             ctx.count("cli_cases_with_from_date_after_a_method_change")
-        _c10_one(ctx, _case(hists, "us", args, ini_methods, {"window": window}), f"c10-{index}")
+        _c10_one(ctx, _case(hists, "us", args, ini_methods, {"window": window, "warm": index % 3 == 0}), f"c10-{index}")
 
 
 def c10_replay(ctx: Any, case: Dict[str, Any]) -> None:
